@@ -2,7 +2,7 @@
 # usage: probe_features.sh <slot> <target-or-host> <features-comma-list-or-empty>
 slot=$1; tgt=$2; feats=$3
 export CARGO_NET_OFFLINE=true CARGO_TERM_COLOR=never
-args=(rustc --offline --manifest-path /repo/miniz_oxide/Cargo.toml --lib --no-default-features --target-dir /verif/c20/target/slot$slot)
+args=(rustc --offline --manifest-path /repo/miniz_oxide/Cargo.toml --lib --no-default-features --target-dir "$(dirname "$0")/target/slot$slot")
 [ -n "$feats" ] && args+=(--features "$feats")
 if [ "$tgt" != "host" ]; then
   exec cargo +nightly "${args[@]}" -Zbuild-std=core,alloc --target "$tgt" -- -F unsafe_code
